@@ -104,6 +104,23 @@ Theorem C10_buffer_empty_iff : forall acts,
 Proof. exact buffer_empty_iff. Qed.
 Print Assumptions C10_buffer_empty_iff.
 
+(** End to end (parser + buffers): any message list with distinct labels, any chunking of its byte
+    stream, any placement of distinct receive(pc) calls between the data_received calls: the parser
+    ends with no byte left; a receive obtains (pc, p) iff (pc, p) was sent and receive(pc) was
+    called; the buffer keeps exactly the unclaimed payloads and the receives never answered. *)
+Theorem C10_framing_end_to_end : forall (np : bool) (subs : Z -> list (list nat)) pid msgs ins,
+  Forall wf_msg msgs -> NoDup (map fst msgs) -> NoDup (rcvs_of ins) ->
+  concat (chunks_of ins) = concat (map encode msgs) ->
+  match sim_final np subs (Some pid, []) [] [] ins with
+  | (sf, bf, got) =>
+      sf = (Some pid, []) /\
+      (forall pc p, In (pc, p) got <-> In (pc, p) msgs /\ In pc (rcvs_of ins)) /\
+      (forall pc p, lookup pc bf = Some (Payload p) <-> In (pc, p) msgs /\ ~ In pc (rcvs_of ins)) /\
+      (forall pc, lookup pc bf = Some Waiting <-> In pc (rcvs_of ins) /\ ~ In pc (map fst msgs))
+  end.
+Proof. exact framing_end_to_end. Qed.
+Print Assumptions C10_framing_end_to_end.
+
 (* ------------------------------------------------------------------------------------------- *)
 (** Non-vacuity: concrete instances meeting the hypotheses. *)
 
@@ -173,4 +190,23 @@ Proof.
   - vm_compute. repeat constructor; simpl; intuition congruence.
   - vm_compute. repeat constructor; simpl; intuition congruence.
   - split; vm_compute; reflexivity.
+Qed.
+
+(** end to end: receive(5) before anything, receive(-1) after its frame, 2^63-1 never received,
+    receive(77) never answered; chunk boundaries inside headers and payloads *)
+Example C10_nonvacuous_end_to_end :
+  let s := concat (map encode ex_msgs) in
+  let ins := [Receive 5; Chunk (firstn 13 s); Chunk []; Chunk (firstn 20 (skipn 13 s)); Receive (-1);
+              Receive 77; Chunk (skipn 33 s); Receive (- 2 ^ 63)] in
+  NoDup (map fst ex_msgs) /\ NoDup (rcvs_of ins) /\
+  concat (chunks_of ins) = concat (map encode ex_msgs) /\
+  sim_final false (matching 3 1 1) (Some 0, []) [] [] ins
+  = ((Some 0, []), [(77, Waiting); (2 ^ 63 - 1, Payload [255])],
+     [(5, []); (-1, [1; 2]); (- 2 ^ 63, [0; 0; 7])]).
+Proof.
+  cbv zeta. split; [|split; [|split]].
+  - vm_compute. repeat constructor; simpl; intuition congruence.
+  - vm_compute. repeat constructor; simpl; intuition congruence.
+  - vm_compute. reflexivity.
+  - vm_compute. reflexivity.
 Qed.
